@@ -43,9 +43,13 @@ def log(*a):
     print(*a, flush=True)
 
 
-def build(race):
-    os.makedirs(BUILD, exist_ok=True)
-    out = os.path.join(BUILD, "props.race.test" if race else "props.test")
+def build(race, outdir=None):
+    # each invocation links its own binary (the go build cache makes this a few seconds), so that
+    # concurrent invocations - other properties, other tiers, another tree through VERIF_MODFILE -
+    # never execute each other's build
+    outdir = outdir or BUILD
+    os.makedirs(outdir, exist_ok=True)
+    out = os.path.join(outdir, "props.race.test" if race else "props.test")
     cmd = ["go", "test", "-c", "-tags", "verif", "-o", out]
     if race:
         cmd.append("-race")
@@ -328,9 +332,9 @@ def main():
     os.makedirs(REPLAYS, exist_ok=True)
     try:
         need_race = any(it.get("race") for it in cfg[tier]) or cfg.get("replay_race", False)
-        binaries = {False: build(False)[0]}
+        binaries = {False: build(False, rundir)[0]}
         if need_race:
-            binaries[True] = build(True)[0]
+            binaries[True] = build(True, rundir)[0]
         replay_bin = binaries[True] if cfg.get("replay_race") else binaries[False]
 
         if replay:
